@@ -133,6 +133,22 @@ WORKSPACES = {
             "program icall\n  implicit none\n  real :: r\n  call isolve(1, 2.0, r)\nend program icall\n",
         ],
     },
+    # a type declared in an included file, extended in a file that precedes the including module in workspace order:
+    # after the include file is saved, every file's includes have to be refreshed before any file's links
+    "W10_include_type": {
+        "a_child.f90": [
+            "module tchild\n  use tbase\n  implicit none\n  type, extends(base_t) :: child_t\n    integer :: own\n  end type child_t\ncontains\n"
+            "  subroutine tuse(c)\n    type(child_t) :: c\n    c%own = c%first\n  end subroutine tuse\nend module tchild\n",
+        ],
+        "b_base.f90": [
+            "module tbase\n  implicit none\n  include 'z_base_decl.f90'\nend module tbase\n",
+        ],
+        "z_base_decl.f90": [
+            "  type :: base_t\n    integer :: first  !< documentation one\n  end type base_t\n",
+            "  type :: base_t\n    integer :: first  !< documentation two\n  end type base_t\n",
+            "  type :: base_t\n    real :: first  !< documentation two\n    integer :: another\n  end type base_t\n",
+        ],
+    },
     "W4_preproc": {
         "pp.F90": [
             "program pp\n#define LOCAL_PP_ONLY 1\n#ifdef LOCAL_PP_ONLY\n  integer :: seen_local\n#endif\n#include \"hh.h\"\n#ifdef FROM_HH\n  integer :: seen_hh\n#endif\n  include 'decl.f90'\n  from_decl = 1\nend program pp\n",
@@ -150,7 +166,7 @@ WORKSPACES = {
     },
 }
 ARGV = {"W7_limits": ["--max_line_length", "50", "--max_comment_line_length", "40"]}
-QUERY = {"W9_include_args": ("icall.f90", 3, 9), "W8_newdir": ("nu.f90", 3, 8), "W7_limits": ("k.f90", 1, 6), "W6_move": ("user.f90", 3, 4), "W5_chain3": ("leaf.f90", 9, 6), "W1_types": ("u.f90", 4, 4), "W2_procs": ("b.f90", 9, 10), "W3_inherit": ("c.f90", 10, 9), "W4_preproc": ("pp.F90", 10, 4)}
+QUERY = {"W10_include_type": ("a_child.f90", 9, 15), "W9_include_args": ("icall.f90", 3, 9), "W8_newdir": ("nu.f90", 3, 8), "W7_limits": ("k.f90", 1, 6), "W6_move": ("user.f90", 3, 4), "W5_chain3": ("leaf.f90", 9, 6), "W1_types": ("u.f90", 4, 4), "W2_procs": ("b.f90", 9, 10), "W3_inherit": ("c.f90", 10, 9), "W4_preproc": ("pp.F90", 10, 4)}
 
 
 def admissible(ws, disk):
